@@ -365,22 +365,26 @@ impl EncodingVersion for EncodingVersion1 {
         // The discriminator value represents the id of a member
         let disc_id = get_discriminator_id_as_i32(dynamic_data)?;
 
-        let mut default_member = None;
+        let mut selected_member = None;
         for member_index in 0..dynamic_type.get_member_count() {
             let member = dynamic_type.get_member_by_index(member_index)?;
             // Deserialize the member based on its discriminator
             if disc_id.is_some_and(|id| member.descriptor.label.contains(&id)) {
-                return Self::deserialize_mmember(deserializer, member, dynamic_data);
+                selected_member = Some(member);
+                break;
             }
             if member.descriptor.is_default_label {
-                default_member = Some(member);
+                selected_member = Some(member);
             }
         }
-        if let Some(member) = default_member {
-            return Self::deserialize_mmember(deserializer, member, dynamic_data);
+        // If the discriminator selects no member the union holds only the discriminator
+        if let Some(member) = selected_member {
+            Self::deserialize_mmember(deserializer, member, dynamic_data)?;
         }
 
-        // The discriminator selects no member: the union holds only the discriminator
+        // The members are looked up from the start of the object and the reader goes back
+        // there after each of them. What follows the object is found after the sentinel
+        Self::seek_to_pid(deserializer, PID_SENTINEL)?;
         Ok(())
     }
 
@@ -512,9 +516,13 @@ impl EncodingVersion for EncodingVersion2 {
         deserializer: &mut XTypesDeserializer<'a, E, Self>,
         dynamic_data: &mut DynamicData,
     ) -> XTypesResult<()> {
-        let _dheader = deserializer.deserialize_primitive_type::<u32>()?;
+        let dheader = deserializer.deserialize_primitive_type::<u32>()?;
+        let object_pos = deserializer.reader.pos;
         deserializer.deserialize_members(dynamic_data)?;
-        Ok(())
+        // The members are looked up from the start of the object and the reader goes back
+        // there after each of them. What follows the object is found with the DHEADER
+        deserializer.reader.pos = object_pos;
+        deserializer.reader.seek(dheader as usize)
     }
 
     /// Member of mutable aggregated type (structure, union), version 2 encoding
@@ -558,7 +566,8 @@ impl EncodingVersion for EncodingVersion2 {
         deserializer: &mut XTypesDeserializer<'a, E, Self>,
         dynamic_data: &mut DynamicData,
     ) -> XTypesResult<()> {
-        let _dheader = deserializer.deserialize_primitive_type::<u32>();
+        let dheader = deserializer.deserialize_primitive_type::<u32>()?;
+        let object_pos = deserializer.reader.pos;
 
         let dynamic_type = dynamic_data.r#type();
         // Deserialize the discriminator
@@ -568,23 +577,27 @@ impl EncodingVersion for EncodingVersion2 {
         // The discriminator value represents the id of a member
         let disc_id = get_discriminator_id_as_i32(dynamic_data)?;
 
-        let mut default_member = None;
+        let mut selected_member = None;
         for member_index in 0..dynamic_type.get_member_count() {
             let member = dynamic_type.get_member_by_index(member_index)?;
             // Deserialize the member based on its discriminator
             if disc_id.is_some_and(|id| member.descriptor.label.contains(&id)) {
-                return Self::deserialize_mmember(deserializer, member, dynamic_data);
+                selected_member = Some(member);
+                break;
             }
             if member.descriptor.is_default_label {
-                default_member = Some(member);
+                selected_member = Some(member);
             }
         }
-        if let Some(member) = default_member {
-            return Self::deserialize_mmember(deserializer, member, dynamic_data);
+        // If the discriminator selects no member the union holds only the discriminator
+        if let Some(member) = selected_member {
+            Self::deserialize_mmember(deserializer, member, dynamic_data)?;
         }
 
-        // The discriminator selects no member: the union holds only the discriminator
-        Ok(())
+        // The members are looked up from the start of the object and the reader goes back
+        // there after each of them. What follows the object is found with the DHEADER
+        deserializer.reader.pos = object_pos;
+        deserializer.reader.seek(dheader as usize)
     }
 
     /// Extensibility APPENDABLE (Collection or Aggregated types), version 2
